@@ -1805,6 +1805,8 @@ class ArmV6:
             self.registers.increment_pc(self.this_instr_length() // 8)
 
     def emulate_cycle(self):
+        # no instruction has been decoded yet: an abort raised by the fetch must not report the syndrome of an earlier instruction
+        self.executed_opcode = None
         try:
             instr = self.fetch_instruction()
             opcode_c = self.decode_instruction(instr)
